@@ -528,11 +528,48 @@ fn c17_results(case_kind: u64, rng: &mut Rng, idx: u64) -> Vec<(&'static str, St
             } else {
                 tie_rich_case(rng, idx)
             };
+            // two larger shapes: a dense regular graph with at least 4096 equal inexact weights (any
+            // size-triggered parallel reduction changes the association of the sums), and a chain
+            // with weights 1, 2, 3, ... plus light chords, whose first level needs more sweeps
+            // than it has nodes
+            let big = if idx % 97 == 1 { 1 } else if idx % 97 == 2 { 2 } else { 0 };
+            let case = match big {
+                1 => {
+                    let n = *rng.pick(&[256usize, 300]);
+                    let names: Vec<String> = (0..n).map(|i| format!("r{:03}", i)).collect();
+                    let w = *rng.pick(&[0.1, 0.3, 0.7]);
+                    let mut edges = vec![];
+                    for i in 0..n {
+                        for k in 1..=16 {
+                            edges.push((i, (i + k) % n, w));
+                        }
+                    }
+                    ctx::count("reach:louvain-on-dense-regular-graph-with-4096-or-more-edges");
+                    GCase { specs: Specs::kind(false, false, false), names, edges, family: "circulant(1..16)", wclass: WClass::Generic }
+                }
+                2 => {
+                    let n = rng.range(300, 600);
+                    let names: Vec<String> = (0..n).map(|i| format!("v{:04}", i)).collect();
+                    let mut edges: Vec<(usize, usize, f64)> = (0..n - 1).map(|i| (i, i + 1, 1.0 + i as f64)).collect();
+                    let mut seen: std::collections::HashSet<(usize, usize)> = std::collections::HashSet::new();
+                    let fraction = *rng.pick(&[0.01, 0.01, 0.03]);
+                    for _ in 0..(if rng.coin() { n } else { n / 3 }) {
+                        let (x, y) = (rng.below(n), rng.below(n));
+                        let (p, q) = (x.min(y), x.max(y));
+                        if q - p >= 2 && seen.insert((p, q)) {
+                            edges.push((p, q, ((1.0 + p as f64) * fraction).floor().max(1.0)));
+                        }
+                    }
+                    ctx::count("reach:louvain-on-slowly-settling-chain");
+                    GCase { specs: Specs::kind(false, false, false), names, edges, family: "chain-with-increasing-weights-and-chords", wclass: WClass::Exact }
+                }
+                _ => case,
+            };
             if case.edges.is_empty() {
                 return out;
             }
-            let mut weighted = case.wclass.weighted() && (case_kind >= 6 || rng.coin());
-            let triple = case_kind < 6 && case.edges.len() >= 7 && rng.chance(1, 4);
+            let mut weighted = (case.wclass.weighted() && (case_kind >= 6 || rng.coin())) || big > 0;
+            let triple = big == 0 && case_kind < 6 && case.edges.len() >= 7 && rng.chance(1, 4);
             let gamma = *rng.pick(&[0.5, 1.0, 1.0, 1.5]);
             let threshold = *rng.pick(&[None, None, Some(0.0), Some(0.01)]);
             let seed = match rng.below(8) {
@@ -541,14 +578,14 @@ fn c17_results(case_kind: u64, rng: &mut Rng, idx: u64) -> Vec<(&'static str, St
                 _ => rng.next_u64() % 21,
             };
             let mut case = case;
-            if weighted && rng.coin() {
+            if weighted && big == 0 && rng.coin() {
                 // symmetric weight patterns keep exact ties alive on weighted graphs
                 let pat: &[f64] = *rng.pick(&[&[3.0, 3.0, 1.0][..], &[5.0, 3.0, 7.0][..], &[3.0, 2.0, 1.0][..], &[2.0][..], &[1.5, 0.5][..]]);
                 for e in case.edges.iter_mut() {
                     e.2 = pat[(e.0 + e.1) % pat.len()];
                 }
             }
-            if weighted && rng.chance(1, 4) {
+            if weighted && big == 0 && rng.chance(1, 4) {
                 // exact (power-of-two scaled) weights whose squares overflow f64
                 for e in case.edges.iter_mut() {
                     e.2 *= 2f64.powi(520);
